@@ -22,7 +22,7 @@ pub fn meta() -> PropMeta {
     PropMeta {
         id: "C09",
         level: "exploration",
-        rule: "a real Receiver (credit policy Auto(n), n in {1,2,3,4,10,200}, or Manual) talks to a scripted sender with an arbitrary initial-delivery-count (incl. values near 2^32); generated histories, executed step-wise: peer deliveries of 1-3 frames sent only while the latest flow leaves credit, application recv+accept one by one, recv k then accept_all, reject, recv without disposing, set_credit(k), drain, a peer flow restating its delivery-count, and finally optionally one delivery beyond the credit. Oracle: every flow from the receiver reports delivery-count in [initial + deliveries the application had received, initial + deliveries arrived] and link-credit equal to the policy's intent (set_credit value / Auto maximum on refresh / remaining credit on drain); whenever the application has received and disposed of everything that arrived under Auto(n), the latest flow leaves credit outstanding (a credit-respecting sender never stalls, streams of 6n+ deliveries complete); a delivery beyond the credit is not returned by recv: recv fails with TransferLimitExceeded and the detach carries amqp:link:transfer-limit-exceeded. Non-trivial: stream longer than the credit, or an overrun injected; distinct by hash of the case.",
+        rule: "a real Receiver (credit policy Auto(n), n in {1,2,3,4,10,200}, or Manual) talks to a scripted sender with an arbitrary initial-delivery-count (incl. values near 2^32); generated histories, executed step-wise: peer deliveries of 1-3 frames sent only while the latest flow leaves credit, application recv+accept one by one, recv k then accept_all, reject, recv without disposing, set_credit(k), drain (under either policy), a peer flow restating its delivery-count, and finally optionally one delivery beyond the credit. Oracle: every flow from the receiver reports delivery-count in [initial + deliveries the application had received, initial + deliveries arrived] and link-credit equal to the policy's intent (set_credit value / Auto maximum on refresh / remaining credit on drain); whenever the application has received and disposed of everything that arrived under Auto(n), the latest flow leaves credit outstanding (a credit-respecting sender never stalls, streams of 6n+ deliveries complete); a delivery beyond the credit is not returned by recv: recv fails with TransferLimitExceeded and the detach carries amqp:link:transfer-limit-exceeded. Non-trivial: stream longer than the credit, or an overrun injected; distinct by hash of the case.",
         assumptions: &[
             "delivery-count in a flow may lie anywhere between the count the application had taken and the count that arrived (the code advances it when the application takes the delivery)",
             "replenishment is only claimed for applications that dispose of what they receive",
@@ -204,6 +204,11 @@ pub async fn run_async(c: &Case, on_take_open: bool, excluded: &std::cell::Cell<
     let mut info = Info { long_stream: false, overrun: false, wrapped: false, flows: 0 };
     let mut received_at_last_settle: u64 = 0;
     let mut policy_credit: Option<u64> = c.auto.map(|n| n as u64);
+    // the next flow is the one an explicit drain() produces: only that one may carry drain=true
+    let mut expect_drain = false;
+    // under Auto a drain that the sender answered leaves the link without credit until the next refresh:
+    // the no-stall assertion is suspended in between (the statement speaks of a stream, not of drain)
+    let mut auto_drained = false;
 
     macro_rules! step {
         ($what:expr) => {{
@@ -218,6 +223,16 @@ pub async fn run_async(c: &Case, on_take_open: bool, excluded: &std::cell::Cell<
                         info.flows += 1;
                         let fdc = as_uint(&ff[5]).ok_or_else(|| format!("{}: receiver's flow without delivery-count although the sender's attach carried one", $what))?;
                         let fcredit = as_uint(&ff[6]).ok_or_else(|| format!("{}: receiver's flow without link-credit", $what))? as u64;
+                        let fdrain = as_bool(&ff[8]).unwrap_or(false);
+                        if fdrain && !expect_drain {
+                            return Err(format!("{}: a flow that was not caused by drain() carries drain=true (link-credit {}): the credit it grants is taken back at once by a sender that honours drain", $what, fcredit));
+                        }
+                        if !fdrain && expect_drain {
+                            return Err(format!("{}: the flow produced by drain() does not carry drain=true", $what));
+                        }
+                        if !fdrain && fcredit > 0 {
+                            auto_drained = false;
+                        }
                         let off = fdc.wrapping_sub(c.i0) as u64;
                         if off < received_at_last_settle || off > arrived {
                             return Err(format!(
@@ -327,7 +342,7 @@ pub async fn run_async(c: &Case, on_take_open: bool, excluded: &std::cell::Cell<
                 // replenishment: an application that has taken and disposed of everything must leave
                 // the sender with credit under an automatic policy
                 if let Some(p) = policy_credit {
-                    if p > 0 && disposed_all && received == arrived && limit <= arrived {
+                    if p > 0 && disposed_all && received == arrived && limit <= arrived && !auto_drained {
                         return Err(format!(
                             "{}: the application has received and disposed of all {} deliveries under Auto({}) but the latest flow grants none beyond them (advertised limit {}): a credit-respecting sender is stalled",
                             what, arrived, p, limit
@@ -338,8 +353,6 @@ pub async fn run_async(c: &Case, on_take_open: bool, excluded: &std::cell::Cell<
                     }
                 }
             }
-            // the property quantifies drain calls under the Manual policy only
-            Op::Drain if c.auto.is_some() => {}
             Op::SetCredit(_) | Op::Drain if on_take_open && received < arrived => {
                 // carve-out of KF-receiver-accounting-on-take: no credit changes while deliveries are buffered
                 excluded.set(excluded.get() + 1);
@@ -364,7 +377,12 @@ pub async fn run_async(c: &Case, on_take_open: bool, excluded: &std::cell::Cell<
                 tx.send(Cmd::Drain(dtx)).await.map_err(|_| "app gone".to_string())?;
                 drx.await.map_err(|_| "app dropped reply".to_string())??;
                 model_credit = Some(credit_var);
+                expect_drain = true;
                 step!(what);
+                expect_drain = false;
+                // (drain under Auto is outside the quantified domain of the no-stall clause: it also resets the
+                // refresh counter, so the assertion resumes only after the next refresh)
+                auto_drained = c.auto.is_some();
                 // answer the drain: the peer gives the credit back
                 let body = Peer::flow_body(
                     Some(cfg.ep_next_outgoing_id),
@@ -384,6 +402,7 @@ pub async fn run_async(c: &Case, on_take_open: bool, excluded: &std::cell::Cell<
                     peer.send_frame(my_ch, &body, &[]).await?;
                     credit_var = 0;
                     model_credit = None;
+                    auto_drained = c.auto.is_some();
                     step!(format!("{what} (peer's drain reply)"));
                 }
                 // (if credit was outstanding the peer simply keeps it: an unanswered drain is legal for a
